@@ -1095,6 +1095,11 @@ def writeGraph(G, output_file, graph_type, file_format='autodetect'):
     if file_format == 'dot':
 
         G = G.to_networkx()
+        # pydot writes the graph name as a quoted string but does not
+        # escape it: a double quote (or a final backslash) in the name
+        # would give a file that cannot be parsed.
+        if isinstance(G.graph.get('name'), str):
+            G.graph['name'] = G.graph['name'].replace('\\', '\\\\').replace('"', '\\"')
         networkx.nx_pydot.write_dot(G, output_file)
 
     elif file_format == 'gml':
